@@ -114,7 +114,6 @@ Retryable(p, s, ra) == Forcelisted(p, s) \/ (p.respect /\ ra >= 0 /\ s \in Retry
 Ob0 == [att |-> 0, msgs |-> 0, last |-> "none", lastStage |-> "", lastKind |-> "", lastStatus |-> 0, lastRA |-> -1,
         reached |-> FALSE, rc |-> 0, rr |-> 0, rs |-> 0, ro |-> 0,
         resent |-> 0, badretry |-> 0, badsleep |-> 0, ghost |-> 0,
-        prevStage |-> "", prevKind |-> "",     \* outcome that preceded the latest attempt
         eofRetry |-> FALSE,                    \* some retry followed EOF / reset at the response start
         ended |-> FALSE, end |-> E0]
 
@@ -130,7 +129,7 @@ ObsAtt(p, meth, ob) ==
               THEN [o1 EXCEPT !.badretry = @ + 1] ELSE o1
         o3 == IF ob.lastStage = "recv" /\ ob.lastKind \in {"eof", "reset"}
               THEN [o2 EXCEPT !.eofRetry = TRUE] ELSE o2
-    IN [o3 EXCEPT !.att = @ + 1, !.last = "pending", !.prevStage = ob.lastStage, !.prevKind = ob.lastKind]
+    IN [o3 EXCEPT !.att = @ + 1, !.last = "pending", !.lastStage = "", !.lastKind = "", !.lastStatus = 0, !.lastRA = -1]
 Resend(p, meth, ob) == IF ob.reached /\ ~MethodAllowed(p, meth) THEN [ob EXCEPT !.resent = @ + 1] ELSE ob
 ObsMsg(p, meth, ob, e) == [Resend(p, e.method, ob) EXCEPT !.msgs = @ + 1]
 ObsFault(p, meth, ob, e) ==
@@ -328,7 +327,7 @@ SleepFn(c, m) ==
               ELSE IF m.nh <= 1 \/ hi <= 0 THEN <<>>
               ELSE <<EvSleep(lo, hi)>>
     IN Step([m EXCEPT !.pc = "recurse"], es)
-RecurseFn(c, m) == Step([m EXCEPT !.pc = "attempt"], <<>>)
+RecurseFn(c, m) == Step([m EXCEPT !.pc = "attempt", !.cur = "", !.filed = "", !.fam = "", !.resp = FALSE], <<>>)
 RaiseFn(c, m)   == Step([m EXCEPT !.pc = "done"], <<EvEnd(m.res.kind, 0, m.res.fam, "yes", <<>>)>>)
 ReturnFn(c, m)  == Step([m EXCEPT !.pc = "done"], <<EvEnd("response", m.res.status, "", "na", m.res.rt)>>)
 
